@@ -183,6 +183,7 @@ type (
 	}
 	EQuant struct {
 		Forall bool
+		Sum    bool
 		Var    string
 		Lo, Hi Expr   // bounded form
 		Type   string // unbounded typed form (Lo,Hi nil)
@@ -389,7 +390,7 @@ func (ps *parser) primary() Expr {
 		if ps.isOp("(") {
 			ps.p++
 			switch t.s {
-			case "forall", "exists":
+			case "forall", "exists", "sum":
 				v := ps.next()
 				if v.k != tkIdent {
 					ps.fail("expected bound variable")
@@ -401,7 +402,7 @@ func (ps *parser) primary() Expr {
 				ps.expect(",")
 				body := ps.expr(0)
 				ps.expect(")")
-				return &EQuant{Forall: t.s == "forall", Var: v.s, Lo: lo, Hi: hi, Body: body}
+				return &EQuant{Forall: t.s == "forall", Sum: t.s == "sum", Var: v.s, Lo: lo, Hi: hi, Body: body}
 			case "forallv", "existsv":
 				v := ps.next()
 				if v.k != tkIdent {
